@@ -335,7 +335,9 @@ func (e *Engine) verifyFunc(ct *FuncContract, prop string) (res *FuncResult) {
 				res.Obls = fc.obls
 				return
 			}
-			panic(r)
+			// an internal error of the generator must fail the check of this function, not crash the run
+			res.Unsupported = fmt.Sprintf("internal error in the VC generator: %v", r)
+			res.Obls = fc.obls
 		}
 	}()
 	// loop ordinals in source order
